@@ -41,5 +41,18 @@ Proof.
   split; [|vm_compute; reflexivity]. intros d. repeat split; simpl; auto. apply Permutation_rev.
 Qed.
 
+(* the language of the theorem includes the set operators: a reordering executor gives the same datapoints *)
+Example C15_nonvacuous_setop :
+  let rev_rows d := mkD (d_ids d) (d_ms d) (rev (d_rows d)) in
+  let A := mkD ["Id_1"%string] ["Me_1"%string] [([VInt 1], [VInt 6]); ([VInt 2], [VInt 5])] in
+  let B := mkD ["Id_1"%string] ["Me_1"%string] [([VInt 2], [VInt 9]); ([VInt 3], [VInt 8])] in
+  let x := DSet OUnion (DVar "A") (DSet OSymdiff (DVar "B") (DVar "A")) in
+  no_sub x = true /\
+  deval [("A"%string, A); ("B"%string, B)] x
+    = Ok (mkD ["Id_1"%string] ["Me_1"%string] [([VInt 1], [VInt 6]); ([VInt 2], [VInt 5]); ([VInt 3], [VInt 8])]) /\
+  deval_nd rev_rows [("A"%string, A); ("B"%string, B)] x
+    = Ok (mkD ["Id_1"%string] ["Me_1"%string] [([VInt 3], [VInt 8]); ([VInt 1], [VInt 6]); ([VInt 2], [VInt 5])]).
+Proof. vm_compute. repeat split. Qed.
+
 Print Assumptions C15_any_reordering_executor_same_result.
 Print Assumptions C15_two_configurations_agree.
